@@ -71,7 +71,7 @@ PROPS = {
         'assumptions': ['the hand-written Model/Cpu.lean mirrors the Rust handlers (checked by the correspondence run on every case); only its dispatch tables are regenerated from source'],
     },
     'C07': {
-        'lean': ['H8.Props.C07', 'H8.Props.C07R.Base', 'H8.Props.C07R.P01', 'H8.Props.C07R.P02', 'H8.Props.C07R.P03', 'H8.Props.C07R.P04', 'H8.Props.C07R.P05', 'H8.Props.C07R.P06', 'H8.Props.C07R.P07', 'H8.Props.C07R.P08', 'H8.Props.C07R.P09', 'H8.Props.C07R.P10', 'H8.Props.C07R.P11', 'H8.Props.C07R.P12', 'H8.Props.C07R.P13', 'H8.Props.C07E', 'H8.Props.C07E2'],
+        'lean': ['H8.Props.C07', 'H8.Props.C07R.Base', 'H8.Props.C07R.P01', 'H8.Props.C07R.P02', 'H8.Props.C07R.P03', 'H8.Props.C07R.P04', 'H8.Props.C07R.P05', 'H8.Props.C07R.P06', 'H8.Props.C07R.P07', 'H8.Props.C07R.P08', 'H8.Props.C07R.P09', 'H8.Props.C07R.P10', 'H8.Props.C07R.P11', 'H8.Props.C07R.P12', 'H8.Props.C07R.P13', 'H8.Props.C07E', 'H8.Props.C07E2', 'H8.Props.C07S'],
         'gen': ['consts', 'buscost', 'busmap', 'dispatch'],
         'runs': [{'mode': 'step', 'shards': 16}],
         'rule': 'single-step cases on the real Cpu (fetch+exec through the verif hook) from a tagged background memory (every byte = hash of its address) with the full register file, CCR, PC, cost and the complete delta of all five stores compared: per form of spec/isa.tbl every combination of the register fields (x2), all 256 initial CCR values, every value of immediate/bit/condition fields, seeded random instances with boundary-value register files and operand addresses at both ends of on-chip RAM, DRAM and the vector area; plus all 65,536 first words and all second words of every prefix class (see the C07 generator). distinct non-trivial = distinct (form, first instruction bytes, resulting register file) triples of in-domain cases.',
